@@ -1,6 +1,6 @@
 #!/bin/bash
 # tools/run_all.sh [quick|thorough]   run every registered check in /verif against /repo, print one line per check
-cd /verif
+cd "$(dirname "$0")/.." || exit 2
 T=${1:-quick}
 for i in C01 C02 C03 C04 C05 C06 C07 C08 C09 C10 C11 C12 C13 C14 C15 C16 C17; do
   s=$(date +%s); out=$(./check $i --tier $T 2>&1); rc=$?; e=$(date +%s)
